@@ -1,7 +1,7 @@
 (** C13 -- property theorems only (router / simulator).  Each is closed by short glue from
     lemmas of [Proofs] and followed by [Print Assumptions].  The hop MAC is an arbitrary
     function: nothing below depends on cryptography. *)
-From Sci Require Import Network.Model Network.Spec Network.Proofs.
+From Sci Require Import Network.Model Network.Spec Network.Proofs Network.Proofs_Sound.
 Local Open Scope N_scope.
 
 (** The simulator reaches a verdict after at most max(1, hops - current hop) AS steps, for
@@ -58,3 +58,54 @@ Theorem segment_change_refuses_valleys_loops_splices :
   /\ sdk_seg_change_ok ToParent ToCore = false /\ sdk_seg_change_ok ToCore ToParent = false.
 Proof. exact seg_change_table_refuses_valleys_loops. Qed.
 Print Assumptions segment_change_refuses_valleys_loops_splices.
+
+(** Forwarding only by authentic, unexpired hop fields: whenever an AS forwards, the ingress
+    half raised no validation error (interface, timestamp, expiry, MAC of the hop field the
+    packet entered on; at a segment change also link types and the next hop field), and the
+    hop field used at egress is authentic for this AS's key over the SegID carried at that
+    moment, within its lifetime, and names the egress interface.  All packets, all MAC
+    functions ([ignore_macs = false]). *)
+Theorem forward_only_authentic_unexpired :
+  forall (key : Type) (mac : key -> N -> N -> N -> N -> N -> N) (t : topology key)
+         ia K now i pk e pk',
+    sdk_route mac t ia K now i pk = (AFwd e, pk') ->
+    exists p1 al ing act h inf,
+      sdk_advance_ingress mac t ia K now i (k_path pk) = Ok (p1, al, ing, act, None)
+      /\ nth_error (p_hops p1) (p_ch p1) = Some h /\ nth_error (p_infos p1) (p_ci p1) = Some inf
+      /\ hop_egress h inf = e /\ hop_mac_ok mac K h inf = true /\ ref_time_ok now h inf = true.
+Proof. intros. eapply sdk_fwd_authentic; eauto. Qed.
+Print Assumptions forward_only_authentic_unexpired.
+
+(** No over-acceptance, one AS step: outside the two open peering findings
+    ([step_scope]: no PEERING flag in the path; a segment change only for a packet that came
+    from a neighbour and not onto/from a peering link), whatever the SDK router forwards or
+    delivers, the independently written reference router forwards over the same interface /
+    delivers, leaving the identical packet.  All topologies without interface 0, all
+    well-formed paths -- including packets spliced from authentic hop fields in any order --
+    all clocks, keys and MAC functions. *)
+Theorem sdk_sound_wrt_ref_step :
+  forall (key : Type) (mac : key -> N -> N -> N -> N -> N -> N) (t : topology key)
+         ia K now i pk,
+    wf_topo t = true -> path_ok (k_path pk) -> step_scope t ia i (k_path pk) = true ->
+    (forall e pk', sdk_route mac t ia K now i pk = (AFwd e, pk') ->
+                   ref_step mac t ia K now i pk = RForward e pk')
+    /\ (forall pk', sdk_route mac t ia K now i pk = (ALocal, pk') ->
+                    ref_step mac t ia K now i pk = RDeliver pk').
+Proof. intros. apply sdk_step_sound; assumption. Qed.
+Print Assumptions sdk_sound_wrt_ref_step.
+
+(** ... and whole runs: the links the simulator crosses are a prefix of the links the
+    reference network crosses, and if the simulator delivers, the reference network delivers
+    in the same AS, having crossed exactly the same links, with the identical packet. *)
+Theorem sdk_sound_wrt_ref :
+  forall (key : Type) (mac : key -> N -> N -> N -> N -> N -> N) fuel (t : topology key) now,
+    wf_topo t = true ->
+    forall ia i pk tr e pk',
+      path_ok (k_path pk) -> run_scope mac fuel t now ia i pk = true ->
+      sdk_sim mac fuel t now ia i pk = (tr, e, pk') ->
+      forall rtr rend rpk, ref_sim mac fuel t now ia i pk = (rtr, rend, rpk) ->
+      (exists more, rtr = fwd_of_steps tr ++ more)
+      /\ (forall pre s, tr = pre ++ [s] -> s_act s = ALocal ->
+            rtr = fwd_of_steps tr /\ rend = RDelivered (s_ia s) /\ rpk = pk').
+Proof. intros. eapply sdk_sim_sound; eauto. Qed.
+Print Assumptions sdk_sound_wrt_ref.
